@@ -34,7 +34,14 @@ PartialDeep ==
     IN UNION {{Dec(p0, <<Dec(p1, <<Lf(1), Missing>>), Dec(p2, <<Lf(2), Lf(3)>>)>>), Dec(p0, <<Dec(p1, <<Missing, Lf(1)>>), Dec(p2, <<Lf(2), Lf(3)>>)>>),
                Dec(p0, <<Dec(p2, <<Lf(2), Lf(3)>>), Dec(p1, <<Lf(1), Missing>>)>>), Dec(p0, <<Dec(p2, <<Lf(2), Lf(3)>>), Dec(p1, <<Missing, Lf(1)>>)>>)}
               : p0 \in PredSet(PG), p1 \in PredSet(PG), p2 \in PredSet(PG)}
-FSet == TreesN(NF, PredSet(PF), TermSet(TF), K) \cup (IF MODE = "reduce" /\ NG = 1 THEN CascadeTrees ELSE {})
+\* reduce: every total tree shape with exactly n decisions (one predicate, terminals from two functions): unbalanced trees in which
+\* a decision that cannot be merged precedes, in the reverse breadth-first sweep, one that can
+RECURSIVE FullN(_, _, _)
+FullN(n, pr, ts) == IF n = 0 THEN {Leaf(a) : a \in ts}
+                    ELSE UNION {{Dec(pr, <<lt, rt>>) : lt \in FullN(k, pr, ts), rt \in FullN(n - 1 - k, pr, ts)} : k \in 0..(n - 1)}
+FullTrees == LET ts == TermSet(TF)  t1 == CHOOSE a \in ts : TRUE  t2 == CHOOSE a \in ts \ {t1} : TRUE
+             IN FullN(4, CHOOSE x \in PredSet(PF) : TRUE, {t1, t2})
+FSet == TreesN(NF, PredSet(PF), TermSet(TF), K) \cup (IF MODE = "reduce" /\ NG = 1 THEN CascadeTrees \cup FullTrees ELSE {})
 GSetAll == TreesN(NG, PredSet(PG), TermSet(TG), K)
 \* "arithdeep": deep total right operands (paths of different length below the grafted root), + and - only
 \* unbalanced total operands: one branch of the root is one level deeper than the other (both orientations), every predicate from PG
